@@ -357,7 +357,7 @@ func (l *BlockchainRpcTxWatcher) observationLoop(
 			}
 
 			// Check if we can find the tx
-			rawTx, firstSeen, err := l.observer.IsTxInMempoolOrRange(
+			rawTx, firstSeen, tip, err := l.observer.IsTxInMempoolOrRange(
 				txId, startingHeight, vout)
 			if errors.Is(err, ErrNotFound) {
 				// Tx was not found from the "Starting Blockheight" until now.
@@ -391,6 +391,12 @@ func (l *BlockchainRpcTxWatcher) observationLoop(
 			// answered with: count in signed arithmetic, so that a block
 			// above that height is "not deep enough yet" instead of wrapping
 			// around to a huge number of confirmations.
+			// A reorganisation can also have left the node with a best chain
+			// that is shorter than the height we were handed: blocks above
+			// the tip the answers refer to do not exist on it.
+			if tip < current {
+				current = tip
+			}
 			if int64(current)-(int64(firstSeen)-1) >= int64(l.requiredConfs) {
 				// We finally made it, enough confirmations and below the safety
 				// limit!
